@@ -2,6 +2,7 @@
 package main
 
 import (
+	"sync"
 	"fmt"
 	"go/ast"
 	"go/constant"
@@ -332,7 +333,11 @@ func constEval(info *types.Info, e ast.Expr) (constant.Value, types.Type, bool) 
 	return nil, nil, false
 }
 
+var typeTagMu sync.Mutex
+
 func (w *World) typeTag(t types.Type) int {
+	typeTagMu.Lock()
+	defer typeTagMu.Unlock()
 	k := types.TypeString(t, nil)
 	if n, ok := w.typeTags[k]; ok {
 		return n
